@@ -91,6 +91,7 @@ def write_layout(lay, dirpath, prefix="in", **hdr_kw):
     D = make_data(lay)
     # header variant (full / minimal / reordered with extra optional keys) derived from the data seed
     hdr_kw.setdefault("variant", lay.get("hdr_variant", lay["data_seed"] % 3))
+    hdr_kw.setdefault("name_style", ["unpadded", "reversed", "indexed"][(lay["data_seed"] // 3) % 3])
     paths, hl, dl = sigfile.write_stream(dirpath, D, lay["nbits"], lay["split"], prefix=prefix, **hdr_kw)
     return paths, D, hl, dl
 
